@@ -137,10 +137,12 @@ class Ctx:
             "wall_s": round(wall, 3),
             "violations": len(new_v),
         }
-        os.makedirs(os.path.join(VERIF, "evidence"), exist_ok=True)
-        evp = os.path.join(VERIF, "evidence", "%s.json" % self.pid)
-        json.dump(ev, open(evp + ".tmp", "w"), indent=1)
-        os.replace(evp + ".tmp", evp)
+        noev = bool(os.environ.get("VERIF_NO_EVIDENCE"))       # positive-control runs on scratch copies leave no trace
+        if not noev:
+            os.makedirs(os.path.join(VERIF, "evidence"), exist_ok=True)
+            evp = os.path.join(VERIF, "evidence", "%s.json" % self.pid)
+            json.dump(ev, open(evp + ".tmp", "w"), indent=1)
+            os.replace(evp + ".tmp", evp)
         for r in self.rules:
             print("[%s] %-9s instances=%d obligations=%d discharged=%d violations=%d  %s" %
                   (self.pid, r.rid, len(r.instances), r.obligations, r.discharged, len(r.viol), r.text[:90]))
@@ -154,7 +156,7 @@ class Ctx:
             print("ANALYSIS-BROKEN property=%s: %s" % (self.pid, self.broken[0]))
             return 2
         if new_v:
-            rd = os.path.join(X.BUILD, "replay")
+            rd = os.path.join(X.BUILD, "replay" if not noev else "replay-scratch")
             os.makedirs(rd, exist_ok=True)
             rp = os.path.join(rd, "%s.json" % self.pid)
             json.dump({"property": self.pid, "violations": new_v}, open(rp, "w"), indent=1)
